@@ -32,16 +32,13 @@ Definition res_eqb (a b : result pyval) : bool :=
 Definition DT (y m d h mi s u : N) (z : option Z) : dtime := mkdt y m d h mi s u z.
 Definition E (t b v d s tm x : option str) : elem := mkelem t b v d s tm x.
 
-Definition is_meta (k : setk) : bool := match k with SetMeta => true | _ => false end.
-Definition lexical_claimed (v : pyval) : bool :=
-  match v with VDateTime d => match tz d with None => true | Some z => (z mod 60 =? 0)%Z end | _ => true end.
-
 (* one read: which getter, the element it read from (abstracted again at that moment), what it returned *)
 Definition read := (getk * elem * result pyval)%type.
 
 (* codes: 1 value read back is not the value stored   2 attribute written is outside the lexical space of its type
           3 set differs from the model (type / payload attribute)   4 get differs from the model, from the same element
-          5 the stored attributes changed on the way (re-parse, save / reload)   8 only the text content differs (fidelity).
+          5 the stored attributes changed on the way (re-parse, save / reload)   8 only the text content differs (fidelity)
+          7 the model's own Decimal text round trip fails on this value (a defect of the model, reported as a correspondence error).
    The property's own predicates (1, 2) are evaluated first, on the implementation's outputs alone; then the simulation (5, 3, 4). *)
 Definition value_ok (v : pyval) (r : read) : bool := match snd r with Ok x => same_value v x | Err => false end.
 Fixpoint chk_reads (k : setk) (w : elem) (rs : list read) : nat :=
@@ -57,7 +54,8 @@ Definition chk06 (c : setk * pyval * result elem * list read) : nat :=
   match w with
   | Err => match model_set k v with Err => 0 | Ok _ => 3 end
   | Ok e =>
-    if in_domain v && negb (forallb (value_ok v) rs) then 1
+    if (match v with VDec d => negb (dec_text_roundtrips d) | _ => false end) then 7
+    else if in_domain v && negb (forallb (value_ok v) rs) then 1
     else if in_domain v && lexical_claimed v && negb (elem_lexical (is_meta k) e) then 2
     else match model_set k v with
          | Err => 3
